@@ -395,6 +395,61 @@ def _net_hist(rng):
     return {"kind": "nethist", "cls": "nethist-" + mode, "sp": rng.random() < 0.85, "polls": polls}
 
 
+def _churn_plan(rng, x, y, z):
+    """the device sets of a churn history: X listed; X restarts lower while listed; X replaced by Z in a poll whose number of
+    names does not shrink (rename / unplug+plug); X listed again; one more poll, counters only growing"""
+    keep_z = rng.random() < 0.5
+    plan = [[x, y], [x, y], [z, y], ([x, y, z] if keep_z else [x, y]), ([x, y, z] if keep_z else [x, y])]
+    if rng.random() < 0.3:
+        plan.insert(2, [x, y])            # a second restart poll
+    if rng.random() < 0.3:
+        plan = [p if y in p and rng.random() < 0.8 else [n for n in p if n != y] or p for p in plan]   # Y may be missing too
+    return plan
+
+
+def _churn_values(rng, plan, x, width):
+    """per poll {name: vector}; X restarts lower in poll 1 (and in an inserted second restart poll); every other counter
+    of a device listed in consecutive polls grows; a returning device has arbitrary (often lower) values"""
+    cur, prev, out = {}, set(), []
+    for k, names in enumerate(plan):
+        vals = {}
+        for n in names:
+            if n in prev:
+                v = _bump(rng, cur[n])
+                if n == x and 1 <= k <= 2 and plan[k - 1].count(x) and k < len(plan) - 2:
+                    for j in rng.sample(range(width), rng.choice([1, 2, width])):
+                        v[j] = cur[n][j] // rng.choice([2, 7, 10 ** 6])       # restart from a lower value
+                cur[n] = v
+            elif n in cur:
+                cur[n] = [c // rng.choice([3, 1000]) if rng.random() < 0.7 else c * 2 + 1 for c in cur[n]]
+            else:
+                cur[n] = [rng.choice([900, 10 ** 6, 2 ** 33, U64 // 2]) + j for j in range(width)]
+            vals[n] = list(cur[n])
+        prev = set(names)
+        out.append(vals)
+    return out
+
+
+def _net_churn(rng):
+    x, y, z = rng.sample(["eth0", "wan0", "lo", "eth1", "wlp3s0", "veth9", "br0", "tun0"], 3)
+    plan = _churn_plan(rng, x, y, z)
+    vals = _churn_values(rng, plan, x, 16)
+    polls = [{"per": rng.random() < 0.6, "ifs": [{"name": n, "c": v[n]} for n in names]} for names, v in zip(plan, vals)]
+    return {"kind": "nethist", "cls": "nethist-churn", "sp": True, "polls": polls}
+
+
+def _disk_churn(rng):
+    x, y, z = rng.sample(["sdb", "sdc", "sda", "nvme0n1", "loop0", "dm-0", "md127", "cciss/c0d0"], 3)
+    plan = _churn_plan(rng, x, y, z)
+    vals = _churn_values(rng, plan, x, 11)
+    polls = []
+    for names, v in zip(plan, vals):
+        devs = [{"name": n, "lay": "f20", "whole": True, "major": 8, "minor": i, "f": v[n], "extra": [1, 2, 3, 4, 5, 6]}
+                for i, n in enumerate(names)]
+        polls.append({"per": rng.random() < 0.55, "devs": devs, "others": []})
+    return {"kind": "diskhist", "cls": "diskhist-churn", "polls": polls}
+
+
 def _disk_hist(rng):
     groups = rng.sample([("sda", ["sda1", "sda2"]), ("nvme0n1", ["nvme0n1p1"]), ("loop0", []), ("cciss/c0d0", ["cciss/c0d0p1"]),
                          ("dm-0", []), ("md127", []), ("rd/c0/d0", ["rd/c0/d0p1"])], rng.choice([1, 2, 3]))
@@ -573,6 +628,9 @@ def gen_cases(rng, tier):
         add({"kind": "sysraw", "cls": "sysfs-malformed", "ents": [["sda", _enc(content).hex()]], "listing": ["sda"]})
     add({"kind": "nosource", "cls": "nosource"})
     # ---- successive polls with the default arguments (nowrap=True)
+    for _ in range(10 * N):
+        add(_net_churn(rng))
+        add(_disk_churn(rng))
     for _ in range(22 * N):
         add(_net_hist(rng))
     for _ in range(18 * N):
